@@ -67,7 +67,28 @@ def run(ctx):
                 a = f.args(i)[2]
                 ok = _has_digest_size_provenance(f, a)
                 ctx.check(ok, R3, '%s:equal-length-is-digest-size' % q.fkey(f), 'length of the MAC comparison is not the digest size', f.loc(i))
-    ctx.floor(R3, 7)
+    # R3a: exactness of the comparison primitive by abstract interpretation (n = 1..3, one side concrete, the other side all byte values)
+    from vlib import absint
+    from vlib.absint import AV, Arr, PV
+    for nlen in (1, 2, 3):
+        bad = None
+        nb = 0
+        for left in ([0x00] * nlen, [0x80, 0x7F, 0xFF][:nlen]):
+            def runeq(it, left=left, nlen=nlen):
+                la = Arr([AV.const(v - 256 if v > 127 else v) for v in left], 'left')
+                ra = Arr([it.inbyte(k) for k in range(nlen)], 'right')
+                return it.call_fn(eq, [PV(la, 0), PV(ra, 0), AV.const(nlen)])
+            for (bx, r, it) in absint.explore(P, runeq, [[(0, 255)] * nlen], max_boxes=400000):
+                nb += 1
+                same = all(lo == hi == left[k] for k, (lo, hi) in enumerate(bx))
+                differs = any(hi < left[k] or lo > left[k] for k, (lo, hi) in enumerate(bx))
+                if not (isinstance(r, AV) and r.is_const()) or not (same or differs) or bool(r.lo) != same:
+                    bad = (left, bx, r)
+                    break
+            if bad:
+                break
+        ctx.check(bad is None, R3, 'equal:exact:n=%d' % nlen, ('equal(%s, %s) = %r' % (bad[0], ['%02X-%02X' % b for b in bad[1]], bad[2])) if bad else '', eq.where, detail={'boxes': nb})
+    ctx.floor(R3, 10)
 
     # ---- R4 EXPIRY-AND-CLEAR ----------------------------------------------------------
     R4 = ctx.rule('C05.R4', 'session_cookies::load: success only after decrypt==true and deadline-vs-time() test; failures clear the cookie')
@@ -204,6 +225,21 @@ def run(ctx):
         uses = [i for i in f.calls() if (f.bcallee(i) or '').startswith('cppcms::crypto::cbc::')]
         ctx.check(bool(lcalls) and all(q.before(f, lcalls[0], u) for u in uses), R5, '%s:load-first' % q.fkey(f), 'cbc object used before load()', f.where)
     ctx.floor(R5, 6)
+    base64_clause(ctx)
+
+
+def base64_clause(ctx):
+    """the cookie is base64url text: the decoder's size / alphabet rules of C15.R4 are a necessary part of 'a cookie this server did not produce is rejected safely'"""
+    from vlib import report
+    from rules import C15
+    sub = report.Ctx('C15', ctx.tier, ctx.seed)
+    C15.run(sub)
+    R6 = ctx.rule('C05.R6', 'base64url layer of the cookie: alphabet, inverse table, exact size formulas, impossible lengths rejected (C15.R4 re-used)')
+    for inst in sub.rules['C15.R4']['instances']:
+        ctx.check(inst['ok'], R6, inst['key'], inst.get('message', ''), inst.get('loc'), inst.get('detail'))
+    ctx.floor(R6, 10)
+    if 'src/base64.cpp' not in ctx.units:
+        ctx.units.append('src/base64.cpp')
 
 
 def _has_digest_size_provenance(f, a, depth=0):
